@@ -22,7 +22,7 @@ SPEC = dict(
          "group the classifier returned carries the model pKa/charge configured for its type. The census model is trace-driven for "
          "the bond-derived inputs (bonded-oxygen count, disulfide flag).",
     technique="Lean 4 proof (simulation between key choices, case rules, table obligations by decide) + differential correspondence + independent spec evaluation",
-    lean=["Propka.Props.C01", "Propka.Props.C01Coupling"],
+    lean=["Propka.Props.C01", "Propka.Props.C01Coupling", "Propka.Props.Pipeline"],
     rule="test files and library multi-chain structures with every TER spelling / no TER, OXT present-absent-not last, alt-loc, "
          "HETATM first, negative and insertion-coded numbering incl. twins, numbering restarting in a second chain, ions, ligands, x "
          "{no option, -c, -i}; non-trivial = a structure with at least two ionizable sites",
